@@ -1,0 +1,32 @@
+//go:build verif
+
+// Contracts for the exponential backoff (property C14): Try calls fn at most limit+1 times, resets the
+// attempt counter on every exit, and reports an error only if the last attempt failed.
+
+package utils
+
+//@ func (*ExponentialBackoff).Reset
+//@   modifies eb.currentAttempt
+//@   ensures  eb.currentAttempt == 0
+
+//@ func (*ExponentialBackoff).GetAttempt
+//@   ensures result == eb.currentAttempt
+
+// the floating point part (the delay) is opaque; what matters is that each Next() counts one attempt
+//@ func (*ExponentialBackoff).Next
+//@   modifies eb.currentAttempt
+//@   ensures  eb.currentAttempt == old(eb.currentAttempt) + 1
+
+//@ func (*ExponentialBackoff).Try
+//@   funcspec fn preserves eb.currentAttempt
+//@   requires eb.currentAttempt == 0 && fn != nil
+//@   modifies eb.currentAttempt, anyold
+//@   ensures  eb.currentAttempt == 0
+//@   ensures  limit >= 0 ==> ghost(calls_fn) - old(ghost(calls_fn)) <= limit + 1
+//@   ensures  ghost(calls_fn) - old(ghost(calls_fn)) >= 1
+//@   ensures  limit < 0 ==> (err == nil || abort)
+//@ loop (*ExponentialBackoff).Try#1
+//@   modifies eb.currentAttempt, anyold
+//@   invariant ghost(calls_fn) - old(ghost(calls_fn)) == eb.currentAttempt
+//@   invariant limit >= 0 ==> eb.currentAttempt <= limit
+//@   invariant eb.currentAttempt >= 0
